@@ -36,6 +36,7 @@ CONSTANTS BufLen,          \* bufferLen (200 in the code)
           MaxSpur,         \* bound: late timer callbacks of finished swaps (only wake)
           PktLens,         \* framed packet lengths the handler may see
           TimeoutSignals, SkipOnErr, ReportRetry, DeadlineArmed,
+          ReportClaim,     \* "swap" (the code) | "load" (read, write, then Store(0))
           AllowClose,      \* Egress.Close may happen
           AllowRecon,      \* the stuck-reconnect branch of sendLoop may close the connection
           RecordHist,      \* keep the action history (behaviour export)
@@ -57,6 +58,7 @@ VARIABLES
   conn,     \* [s -> 0 (nil) | index into up]
   recon,    \* [s -> a token sits in reconCh]
   wb,       \* [s -> wouldBlockBytes]
+  rh,       \* [s -> amount the report being written carries (0 = no report in progress)]
   prim,     \* the sender *primPtr points to (*secPtr is the other one)
   hpc,      \* handler: "idle" | "sec" (primary push failed, about to try the secondary)
   hpkt,     \* packet id in flight in the handler
@@ -81,7 +83,7 @@ VARIABLES
   hist
 
 bufv  == <<w, r, ri, closedB, cv, tmr, tmo>>
-sndv  == <<pc, conn, recon, wb>>
+sndv  == <<pc, conn, recon, wb, rh>>
 hndv  == <<prim, hpc, hpkt, hfull, nextId, plen>>
 clsv  == <<shut, closing, stopReq>>
 statv == <<fwd, drp, werrs, rerrs>>
@@ -100,7 +102,7 @@ Init == /\ w = [s \in Senders |-> <<>>] /\ r = [s \in Senders |-> <<>>]
         /\ pc = [s \in Senders |-> "top"]
         /\ conn = [s \in Senders |-> 0]
         /\ recon = [s \in Senders |-> FALSE]
-        /\ wb = [s \in Senders |-> 0]
+        /\ wb = [s \in Senders |-> 0] /\ rh = [s \in Senders |-> 0]
         /\ prim = 1 /\ hpc = "idle" /\ hpkt = 0 /\ hfull = TRUE
         /\ shut = FALSE /\ closing = 0 /\ stopReq = [s \in Senders |-> FALSE]
         /\ fwd = 0 /\ drp = 0 /\ werrs = 0 /\ rerrs = 0
@@ -167,7 +169,7 @@ TimeoutCore(s) ==
 PushClosedEff ==          \* select { case <-p.closed: return pkt, errWouldBlock }
     /\ hpc = "idle" /\ shut
     /\ drp' = drp + 1 /\ closedRej' = closedRej + 1
-    /\ UNCHANGED <<bufv, conn, recon, wb, prim, hpc, hpkt, hfull, plen, clsv, fwd, werrs, rerrs,
+    /\ UNCHANGED <<bufv, conn, recon, wb, rh, prim, hpc, hpkt, hfull, plen, clsv, fwd, werrs, rerrs,
                    acc, done, up, upOf, stc, skipped, drops, dropBytes, reported, repLost, errs, spur>>
 
 PushFirstEff(s, id, ln, ok) ==      \* (*p.primPtr).buf.push(pkt)
@@ -177,7 +179,7 @@ PushFirstEff(s, id, ln, ok) ==      \* (*p.primPtr).buf.push(pkt)
     /\ plen' = [x \in DOMAIN plen \cup {id} |-> IF x = id THEN ln ELSE plen[x]]
     /\ IF ok THEN /\ fwd' = fwd + 1 /\ UNCHANGED <<hpc, hpkt, hfull>>
              ELSE /\ hpc' = "sec" /\ hpkt' = id /\ hfull' = ~CanPush(s) /\ UNCHANGED fwd
-    /\ UNCHANGED <<conn, recon, wb, clsv, drp, werrs, rerrs, done, up, upOf, stc, skipped, drops,
+    /\ UNCHANGED <<conn, recon, wb, rh, clsv, drp, werrs, rerrs, done, up, upOf, stc, skipped, drops,
                    dropBytes, closedRej, reported, repLost, errs, spur>>
 
 PushSecondEff(s2, ok) ==            \* (*p.secPtr).buf.push(pkt), pointer exchange, or the drop
@@ -195,7 +197,7 @@ PushSecondEff(s2, ok) ==            \* (*p.secPtr).buf.push(pkt), pointer exchan
                                         distinct |-> s2 # prim, bothNow |-> ~CanPush(1) /\ ~CanPush(2)])
             /\ dropBytes' = dropBytes + plen[hpkt]
             /\ UNCHANGED <<recon, prim, fwd>>
-    /\ UNCHANGED <<conn, hfull, plen, clsv, werrs, rerrs, done, up, upOf, stc, skipped,
+    /\ UNCHANGED <<conn, rh, hfull, plen, clsv, werrs, rerrs, done, up, upOf, stc, skipped,
                    closedRej, reported, repLost, errs, spur>>
 
 -------------------------------------------------------------------------------
@@ -217,12 +219,12 @@ TopCore(s, br) ==         \* the select at the top of the loop; br = branch take
        \/ /\ br = "default" /\ ~stopReq[s] /\ ~recon[s]
           /\ pc' = [pc EXCEPT ![s] = IF conn[s] = 0 THEN "dial" ELSE "pop"]
           /\ UNCHANGED <<conn, recon>>
-    /\ UNCHANGED <<bufv, wb, hndv, clsv, statv, ghov>>
+    /\ UNCHANGED <<bufv, wb, rh, hndv, clsv, statv, ghov>>
 
 DialOKEff(s) ==           \* conn, err = s.reconnect() (handshake written) succeeded
     /\ up' = Append(up, <<>>) /\ upOf' = Append(upOf, s)
     /\ conn' = [conn EXCEPT ![s] = Len(up) + 1]
-    /\ UNCHANGED <<bufv, recon, wb, hndv, clsv, statv, acc, done, stc, skipped, drops, dropBytes,
+    /\ UNCHANGED <<bufv, recon, wb, rh, hndv, clsv, statv, acc, done, stc, skipped, drops, dropBytes,
                    closedRej, reported, repLost, errs, spur>>
 DialOKCore(s) == pc[s] = "dial" /\ DialOKEff(s) /\ pc' = [pc EXCEPT ![s] = "pop"]
 
@@ -230,7 +232,7 @@ DialFailCore(s) ==
     /\ pc[s] = "dial" /\ errs < MaxErrs
     /\ errs' = errs + 1 /\ rerrs' = rerrs + 1
     /\ pc' = [pc EXCEPT ![s] = "top"]
-    /\ UNCHANGED <<bufv, conn, recon, wb, hndv, clsv, fwd, drp, werrs, acc, done, up, upOf, stc,
+    /\ UNCHANGED <<bufv, conn, recon, wb, rh, hndv, clsv, fwd, drp, werrs, acc, done, up, upOf, stc,
                    skipped, drops, dropBytes, closedRej, reported, repLost, spur>>
 
 (* pop(): `if b.ri >= b.rm { b.swap() }` ... *)
@@ -246,14 +248,14 @@ PopBeginCore(s) ==
             /\ UNCHANGED closedB
        ELSE /\ pc' = [pc EXCEPT ![s] = "write"]               \* unsent rest of the batch after an error
             /\ UNCHANGED bufv
-    /\ UNCHANGED <<conn, recon, wb, hndv, clsv, statv, ghov>>
+    /\ UNCHANGED <<conn, recon, wb, rh, hndv, clsv, statv, ghov>>
 
 (* cond.Wait() returned: the loop condition is evaluated again under the lock *)
 WakeCore(s) ==
     /\ cv[s] = "woken" /\ pc[s] \in {"sw1", "sw2"}
     /\ IF pc[s] = "sw1" THEN SwapStep(s, tmo[s], "sw1", "report", "write")
                         ELSE SwapStep(s, tmo[s], "sw2", "report", "report")
-    /\ UNCHANGED <<closedB, tmo, conn, recon, wb, hndv, clsv, statv, ghov>>
+    /\ UNCHANGED <<closedB, tmo, conn, recon, wb, rh, hndv, clsv, statv, ghov>>
 
 Items(ids) == [i \in 1..Len(ids) |-> <<"p", ids[i]>>]
 
@@ -264,7 +266,7 @@ WriteOKEff(s) ==
        /\ up' = [up EXCEPT ![conn[s]] = @ \o Items(batch)]
        /\ done' = [done EXCEPT ![s] = @ \o batch]
     /\ ri' = [ri EXCEPT ![s] = Len(r[s])]
-    /\ UNCHANGED <<w, r, closedB, cv, tmr, tmo, conn, recon, wb, hndv, clsv, statv, acc, upOf, stc,
+    /\ UNCHANGED <<w, r, closedB, cv, tmr, tmo, conn, recon, wb, rh, hndv, clsv, statv, acc, upOf, stc,
                    skipped, drops, dropBytes, closedRej, reported, repLost, errs, spur>>
 WriteOKCore(s) == pc[s] = "write" /\ conn[s] \notin stc /\ WriteOKEff(s) /\ pc' = [pc EXCEPT ![s] = "sw2e"]
 
@@ -287,7 +289,7 @@ WriteErrEff(s, k, newri) ==
           /\ ri' = [ri EXCEPT ![s] = newri]
     /\ werrs' = werrs + 1
     /\ conn' = [conn EXCEPT ![s] = 0]
-    /\ UNCHANGED <<w, r, closedB, cv, tmr, tmo, recon, wb, hndv, clsv, fwd, drp, rerrs, acc, upOf, stc,
+    /\ UNCHANGED <<w, r, closedB, cv, tmr, tmo, recon, wb, rh, hndv, clsv, fwd, drp, rerrs, acc, upOf, stc,
                    drops, dropBytes, closedRej, reported, repLost, spur>>
 WriteErrCore(s, k) == pc[s] = "write" /\ WriteErrEff(s, k, CodedNewRi(s, k)) /\ pc' = [pc EXCEPT ![s] = "top"]
 
@@ -300,10 +302,11 @@ SwapEnter2Core(s) ==
             /\ pc' = [pc EXCEPT ![s] = "sw2"]
        ELSE /\ SwapFinishCore(s)
             /\ pc' = [pc EXCEPT ![s] = "report"]
-    /\ UNCHANGED <<closedB, conn, recon, wb, hndv, clsv, statv, ghov>>
+    /\ UNCHANGED <<closedB, conn, recon, wb, rh, hndv, clsv, statv, ghov>>
 
-(* reportWouldBlockIfAny: n := wouldBlockBytes.Swap(0); write one metric packet carrying n.
-   ok = the write succeeded; retry = a failed write puts n back *)
+(* reportWouldBlockIfAny, as one step (used by the trace specification, where the Report hook marks
+   the instant the amount is claimed): n is claimed from the counter and one metric packet
+   carrying n is written.  ok = the write succeeded; retry = a failed write puts n back *)
 ReportEff(s, n, ok, retry) ==
     /\ IF n = 0
        THEN /\ ok /\ UNCHANGED <<wb, up, reported, repLost, werrs>>
@@ -317,9 +320,42 @@ ReportEff(s, n, ok, retry) ==
                     /\ IF retry THEN UNCHANGED <<wb, repLost>>
                                 ELSE wb' = [wb EXCEPT ![s] = @ - n] /\ repLost' = repLost + n
                     /\ UNCHANGED <<up, reported>>
+    /\ UNCHANGED <<bufv, conn, recon, rh, hndv, clsv, fwd, drp, rerrs, acc, done, upOf, stc, skipped,
+                   drops, dropBytes, closedRej, spur>>
+
+(* The model takes it in two steps, because tcpPool.writeLocked adds dropped bytes to the counter
+   concurrently with the sender: ReportBegin reads the counter (ReportClaim = "swap": Swap(0), the
+   amount now belongs to this report; "load": Load(), the counter keeps it), ReportEnd is the end
+   of conn.Write ("swap": a failure adds the amount back if ReportRetry; "load": Store(0) after a
+   success - which also erases whatever was dropped in between). *)
+ReportBeginCore(s) ==
+    /\ pc[s] = "report"
+    /\ IF wb[s] = 0
+       THEN /\ pc' = [pc EXCEPT ![s] = "top"] /\ UNCHANGED <<wb, rh>>
+       ELSE /\ rh' = [rh EXCEPT ![s] = wb[s]]
+            /\ wb' = IF ReportClaim = "swap" THEN [wb EXCEPT ![s] = 0] ELSE wb
+            /\ pc' = [pc EXCEPT ![s] = "report2"]
+    /\ UNCHANGED <<bufv, conn, recon, hndv, clsv, statv, ghov>>
+ReportEndCore(s, ok) ==
+    /\ pc[s] = "report2"
+    /\ LET n == rh[s] IN
+       IF ok
+       THEN /\ up' = [up EXCEPT ![conn[s]] = Append(@, <<"r", n>>)]
+            /\ reported' = reported + n
+            /\ IF ReportClaim = "swap"
+               THEN UNCHANGED <<wb, repLost>>
+               ELSE wb' = [wb EXCEPT ![s] = 0] /\ repLost' = repLost + (wb[s] - n)   \* Store(0)
+            /\ UNCHANGED werrs
+       ELSE /\ werrs' = werrs + 1
+            /\ IF ReportClaim = "swap"
+               THEN IF ReportRetry THEN wb' = [wb EXCEPT ![s] = @ + n] /\ UNCHANGED repLost
+                                   ELSE repLost' = repLost + n /\ UNCHANGED wb
+               ELSE UNCHANGED <<wb, repLost>>
+            /\ UNCHANGED <<up, reported>>
+    /\ rh' = [rh EXCEPT ![s] = 0]
+    /\ pc' = [pc EXCEPT ![s] = "top"]
     /\ UNCHANGED <<bufv, conn, recon, hndv, clsv, fwd, drp, rerrs, acc, done, upOf, stc, skipped,
                    drops, dropBytes, closedRej, spur>>
-ReportCore(s, ok) == pc[s] = "report" /\ ReportEff(s, wb[s], ok, ReportRetry) /\ pc' = [pc EXCEPT ![s] = "top"]
 
 -------------------------------------------------------------------------------
 (* Egress.Close: close(pool.closed); primary.close(); secondary.close()
@@ -386,14 +422,15 @@ WriteDeadline(s) == /\ DeadlineArmed /\ conn[s] \in stc
                     /\ \E k \in 0..BufLen : WriteErrCore(s, k) /\ H([a |-> "WriteDeadline", s |-> s, k |-> k])
                     /\ UNCHANGED errs
 SwapEnter2(s) == SwapEnter2Core(s) /\ H([a |-> "SwapEnter2", s |-> s])
-ReportOK(s) == ReportCore(s, TRUE) /\ UNCHANGED errs /\ H([a |-> "Report", s |-> s, n |-> wb[s]])
-ReportErr(s) == /\ wb[s] > 0 /\ errs < MaxErrs /\ errs' = errs + 1
-                /\ ReportCore(s, FALSE) /\ H([a |-> "ReportErr", s |-> s, n |-> wb[s]])
+ReportBegin(s) == ReportBeginCore(s) /\ H([a |-> "ReportBegin", s |-> s, n |-> wb[s]])
+ReportOK(s) == ReportEndCore(s, TRUE) /\ UNCHANGED errs /\ H([a |-> "ReportEnd", s |-> s, n |-> rh[s]])
+ReportErr(s) == /\ errs < MaxErrs /\ errs' = errs + 1
+                /\ ReportEndCore(s, FALSE) /\ H([a |-> "ReportErr", s |-> s, n |-> rh[s]])
 CloseBegin == CloseBeginCore /\ H([a |-> "Close"])
 CloseSender == CloseSenderCore /\ H([a |-> "CloseSender", s |-> closing])
 CloseWait == CloseWaitCore /\ H([a |-> "CloseWait", s |-> closing])
 
-SenderProgress(s) == Top(s) \/ DialOK(s) \/ PopBegin(s) \/ Wake(s) \/ WriteOK(s) \/ WriteDeadline(s) \/ SwapEnter2(s) \/ ReportOK(s)
+SenderProgress(s) == Top(s) \/ DialOK(s) \/ PopBegin(s) \/ Wake(s) \/ WriteOK(s) \/ WriteDeadline(s) \/ SwapEnter2(s) \/ ReportBegin(s) \/ ReportOK(s)
 SenderFault(s) == DialFail(s) \/ WriteErr(s) \/ ReportErr(s) \/ LateTimer(s) \/ UpstreamStalls(s)
 
 Next == /\ RecordHist => Len(hist) < MaxHist
@@ -444,7 +481,7 @@ DropsCounted == /\ drp = Len(drops) + closedRej
                 /\ fwd = Len(acc[1]) + Len(acc[2])
                 /\ fwd + drp = (nextId - 1) - (IF hpc = "sec" THEN 1 ELSE 0)
 (* ... and reported upstream: every dropped byte is either still to be reported or was written *)
-ReportsConserved == wb[1] + wb[2] + reported + repLost = dropBytes
+ReportsConserved == wb[1] + wb[2] + (IF ReportClaim = "swap" THEN rh[1] + rh[2] ELSE 0) + reported + repLost = dropBytes
 NoReportLost == repLost = 0
 (* bounded delay, safety half: a sender never sleeps on although its swapWaitMax is over *)
 NoStuck == \A s \in Senders : ~(cv[s] = "asleep" /\ tmo[s])
@@ -452,14 +489,14 @@ NoStuck == \A s \in Senders : ~(cv[s] = "asleep" /\ tmo[s])
 TimerSane == \A s \in Senders : (tmr[s] = "armed" => cv[s] \in {"asleep", "woken"})
                                /\ (cv[s] # "none" <=> pc[s] \in {"sw1", "sw2"})
 ConnSane == \A s \in Senders : /\ conn[s] # 0 => (conn[s] <= Len(up) /\ upOf[conn[s]] = s)
-                               /\ pc[s] \in {"pop", "sw1", "write", "sw2e", "sw2", "report"} => conn[s] # 0
+                               /\ pc[s] \in {"pop", "sw1", "write", "sw2e", "sw2", "report", "report2"} => conn[s] # 0
 
 AccIds == Range(acc[1]) \cup Range(acc[2])
 DoneIds == Range(done[1]) \cup Range(done[2])
 (* bounded delay, liveness half: even if no further packet arrives, everything accepted is
    eventually written (handler calls are bounded, so "eventually always" says it per packet) *)
 EventuallyWritten == <>[](AccIds \subseteq DoneIds \/ shut)
-EventuallyReported == <>[](wb[1] = 0 \/ shut)
+EventuallyReported == <>[]((wb[1] = 0 /\ rh[1] = 0) \/ shut)
 CloseTerminates == (closing = 1) ~> (closing = 3)
 
 (* behaviour export (simulation): print a behaviour when it is complete *)
